@@ -8,6 +8,7 @@ let () =
     | "prep" -> M_prep.handle
     | "cycles" -> M_cycles.handle
     | "resolve" -> M_resolve.handle
+    | "visit" -> M_visit.handle
     | _ -> prerr_endline ("unknown component " ^ comp); exit 2 in
   let out = Buffer.create 65536 in
   (try while true do
